@@ -281,10 +281,14 @@ fn receive_acks(
 fn buffer_despawns(
     trigger: Trigger<OnRemove, Replicated>,
     mut despawn_buffer: ResMut<DespawnBuffer>,
+    mut removal_buffer: ResMut<RemovalBuffer>,
     server: Res<RepliconServer>,
 ) {
     if server.is_running() {
         despawn_buffer.push(trigger.target());
+        // Removals buffered earlier in this tick are superseded by the despawn.
+        // Clients apply removals after despawns and would spawn the entity again.
+        removal_buffer.remove_entity(trigger.target());
     }
 }
 
